@@ -431,7 +431,7 @@ struct RE { const char* name; double v, bound; };
 
 int main(int argc, char** argv) {
     verif::Run run("C44", argc, argv);
-    run.setDeadline(600, 2700);
+    run.setDeadline(600, 2400);
     const bool thorough = run.thorough();
     installGuards();
     run.rule = "a case = (m rows, an assignment of row roles = composition of m into blocks from {U,N,Nm,O,K,S,Sm,B,T,TT,C2,C3,F,FK,FO}, A=L*L' with integer lower-triangular L, D in {0,0.1 I}, verrStart in {-1,0,1}^m, verrApplied in {none, alternating +-0.5}, solver); "
